@@ -11,6 +11,22 @@ Example c02_wf_example :
                                         [Fld [99] (Some [[65]]) None None (NEnum [[99]] false [69] [[82]] [])])]) = true.
 Proof. reflexivity. Qed.
 
+(* non-vacuity for data paths of every length: a field read three keys deep next to one sharing its
+   two-key prefix (n.m.a / n.m.b), a segment equal to a sibling's key (d.a next to a), a flattened
+   object (empty path) whose own fields sit next to the enclosing object's, and list items read
+   below a key (each item {"v":..} rendered as its "v") *)
+Example c02_wf_paths_example :
+  root_wf (NObj [] false [81] [] [] false
+            [Fld [120] None None None (NStr [[110];[109];[97]] true);
+             Fld [121] None None None (NObj [[110];[109];[98]] true [84] [] [] false
+                                         [Fld [122] None None None (NInt [[122]] false)]);
+             Fld [97] None None None (NInt [[97]] true);
+             Fld [119] None None None (NBool [[100];[97]] false);
+             Fld [102] None None None (NObj [] true [81] [] [] false
+                                         [Fld [103] None None None (NFloat [[103];[104]] true)]);
+             Fld [108] None None None (NArr [[108];[105]] true (NStr [[118]] false))]) = true.
+Proof. vm_compute. reflexivity. Qed.
+
 (* T1: the two-pass implementation model (mutating pre-walk, then print walk) never panics, never
    reports a print error, and yields exactly the errors and the marshalled tree of the one-pass
    completion semantics -- for every authorization decision function, plan and data. *)
@@ -113,3 +129,51 @@ Proof. vm_compute. repeat split. Qed.
 Example c02_denied_null :
   denied_null_b (fun _ f => bytes_eqb f [97]) ex_auth_plan ex_auth_data [] [] ex_auth_errs ex_auth_out = true.
 Proof. vm_compute. reflexivity. Qed.
+
+(* ---- multi-segment paths: the bubble stops at a nullable object read two keys deep ----
+   plan  { u: U } with U read at data.user, U { id: String!, name: String! }
+   data  {"data":{"user":{"id":"1","name":null}},"x":1}
+   result {"u":null} with one non-null error at data.user.name (error paths are data paths) *)
+Definition ex2_plan : node :=
+  NObj [] false [81] [] [] false
+       [Fld [117] None None None
+            (NObj [[100;97;116;97]; [117;115;101;114]] true [85] [] [] false
+                  [Fld [105;100] None None None (NStr [[105;100]] false);
+                   Fld [110;97;109;101] None None None (NStr [[110;97;109;101]] false)])].
+Definition ex2_data : json :=
+  JObj [([100;97;116;97], JObj [([117;115;101;114], JObj [([105;100], JStr [49]); ([110;97;109;101], JNull)])]);
+        ([120], JNum [49])].
+Definition ex2_out : json := JObj [([117], JNull)].
+Definition ex2_errs : list gerr :=
+  [{| ge_kind := EK_NONNULL;
+      ge_path := [PName [100;97;116;97]; PName [117;115;101;114]; PName [110;97;109;101]] |}].
+Example c02_paths_wf : root_wf ex2_plan = true.
+Proof. vm_compute. reflexivity. Qed.
+Example c02_paths_complete :
+  complete_root (fun _ _ => false) ex2_plan ex2_data = (Some ex2_out, ex2_errs).
+Proof. vm_compute. reflexivity. Qed.
+Example c02_paths_resolve :
+  let r := resolve (fun _ _ => false) ex2_plan ex2_data in
+  r_errors r = ex2_errs /\ r_data r = marshal ex2_out /\ r_data_null r = false /\
+  r_panic r = false /\ r_render_err r = false.
+Proof. vm_compute. repeat split. Qed.
+
+(* ---- why plan_wf asks for prefix-incomparable sibling paths ----
+   plan  { s: String! read at a.b ; o: O read at a (nullable), O { c: Int! } }
+   data  {"a":{"b":"x","c":null}}
+   The pre-walk accepts s, then nulls "a" for o.  The print walk reads a.b from the nulled data: the
+   model reports a print-walk error (the real renderer writes "s":null for a String! and stops),
+   while the completion semantics gives {"s":"x","o":null}.  Every other clause of plan_wf holds. *)
+Definition ex_overlap_plan : node :=
+  NObj [] false [81] [] [] false
+       [Fld [115] None None None (NStr [[97];[98]] false);
+        Fld [111] None None None (NObj [[97]] true [79] [] [] false
+                                    [Fld [99] None None None (NInt [[99]] false)])].
+Definition ex_overlap_data : json := JObj [([97], JObj [([98], JStr [120]); ([99], JNull)])].
+Example c02_overlap_not_wf : root_wf ex_overlap_plan = false.
+Proof. vm_compute. reflexivity. Qed.
+Example c02_overlap_breaks_two_pass :
+  r_render_err (resolve (fun _ _ => false) ex_overlap_plan ex_overlap_data) = true /\
+  fst (complete_root (fun _ _ => false) ex_overlap_plan ex_overlap_data)
+    = Some (JObj [([115], JStr [120]); ([111], JNull)]).
+Proof. vm_compute. split; reflexivity. Qed.
